@@ -408,4 +408,18 @@ theorem DP17.room_for_every_chunk_partial (cfg : DP17Cfg) (lv : Leaves) (k1 k2 :
     (DP17.initLevels_linv db.total levels [] ls0 hinit (fun l hl => by cases hl)) (by omega) hfa
     (fun w count i x c HT e => DP17.htInsert_noIndexError cfg lv d hd0 hsha k1 k2 w count i x c HT e)
 
+/-- DP17: `_Enc` raises no IndexError — neither from the level search (`_find_adjacent_i`, a binary search that is proved to
+    return the FIRST level that holds the list), nor from `random.choice`, nor from the hash-table update — for every
+    database and every recorded choice, when the level list ascends, has no negative level and its last level holds every
+    list (`L · 2^⌈log2 N⌉ ≥ N ≥ |DB(w)|` for `L ≥ 1`).  The hypotheses on the level list are decidable facts about `N` and
+    the configuration (they fail for the level ratios noted in DESIGN.md 11.3, where the code computes negative levels). -/
+theorem DP17.enc_no_index_error (cfg : DP17Cfg) (lv : Leaves) (k1 k2 : Bytes) (levels : List Int) (db : DB)
+    (ls0 : List Level) (t : Tape) (hinit : DP17.initLevels db.total levels [] = .ok ls0) (hL : 0 ≤ cfg.L)
+    (hasc : ∀ (i j : Nat) (a b : Int), i ≤ j → levels[i]? = some a → levels[j]? = some b → a ≤ b)
+    (hnn : ∀ a ∈ levels, 0 ≤ a) (hfits : ∀ p ∈ db, ∃ a ∈ levels, DP17.fits cfg a p.2.length = true)
+    (d : Nat) (hd0 : 0 < d) (hsha : ∀ m, (lv.sha m).length = d) :
+    ∀ e, DP17.encDb cfg lv k1 k2 levels db ls0 [] t = .error e → e ≠ .indexError :=
+  DP17.room_for_every_chunk_partial cfg lv k1 k2 levels db ls0 t hinit
+    (fun p hp => DP17.findAdjacent_ok cfg levels p.2.length hL hasc hnn (hfits p hp)) d hd0 hsha
+
 end SSEPy.C01
